@@ -345,7 +345,7 @@ def check_c10(tier, seed):
 
 
 C11_SUBS = [("h_dp.c", "c01", False), ("h_dp.c", "c02", False), ("h_dp.c", "c04", False), ("h_par.c", "c07", True),
-            ("h_keylen.c", "c10", True), ("h_ctr.c", "c05", True), ("h_life.c", "c16", True), ("h_sched.c", "c04", True)]
+            ("h_keylen.c", "c10", True), ("h_ctr.c", "c05", True), ("h_ctr.c", "c06", True), ("h_life.c", "c16", True), ("h_sched.c", "c04", True)]
 
 
 def check_c11(tier, seed):
@@ -412,12 +412,12 @@ def check_c11(tier, seed):
                                   "detail": "digest of all '%s' results of the %s/%s histories differs between (shipped -O3, paint 0x00) and (%s, paint 0x%02x): %s vs %s"
                                             % (tag, src, sub, key[2], key[3], ref.get(tag), val.get(tag))})
     cov = {"evaluations": merged.evaluations + merged.transitions, "distinct_nontrivial": merged.distinct + merged.states,
-           "rule": "the quick histories of C01, C02, C04, C05, C07, C10 and the allocation-failure histories of C16 executed (a) in a clang MemorySanitizer build (origins tracked) with an explicit shadow test on every output block, key schedule, "
+           "rule": "the quick histories of C01, C02, C04, C05, C06 (re-keying and tweak changes outside the stream regime, back ends in lock step), C07, C10 and the allocation-failure histories of C16 executed (a) in a clang MemorySanitizer build (origins tracked) with an explicit shadow test on every output block, key schedule, "
                    "context image and return value, caller objects and the stack below each call poisoned; (b) in the shipped -O3 and the -O0 builds twice each with the stack below every call and the caller's "
                    "objects painted 0x00 vs 0xA5: the digests of everything returned must be bit-identical across the four runs; distinct = distinct cases of those histories",
            "samples": merged.samples[:6], "runs": per, "digest_comparisons": ncmp, "result_tags": sorted(set(t for val in sums.values() for t in val)),
            "builds": [b.describe() for b in builds]}
-    return v.finish("exploration", cov, ["paths not in those histories are not covered", "heap blocks come from calloc (zeroed) in every back end; malloc'ed blocks would be painted by the allocator seam"])
+    return v.finish("exploration", cov, ["paths not in those histories are not covered", "heap blocks come from calloc (zeroed) in every back end; a block obtained through malloc, realloc, posix_memalign, aligned_alloc or memalign is filled with the paint pattern of the run and poisoned under MemorySanitizer by the allocator seam"])
 
 
 def c12_configs(tier):
@@ -521,7 +521,9 @@ def check_c13(tier, seed):
     libs = run_parallel([lambda: mkbuild("shipped").build(st, jobs=5),
                          lambda: mkbuild("cpumodel", defs=["-DSKINNY_C_VERIF_CPUID"]).build(st, jobs=5),
                          lambda: mkbuild("cpumodel-no256", defs=["-DSKINNY_C_VERIF_CPUID", "-DSKINNY_C_VERIF_VEC256_MATH=0"], maxbe=1).build(st, jobs=5),
-                         lambda: mkbuild("no256", defs=["-DSKINNY_C_VERIF_VEC256_MATH=0"], maxbe=1).build(st, jobs=5)], workers=4)
+                         lambda: mkbuild("no256", defs=["-DSKINNY_C_VERIF_VEC256_MATH=0"], maxbe=1).build(st, jobs=5),
+                         lambda: mkbuild("nosimd").build(st, jobs=5),
+                         lambda: mkbuild("cpumodel-nosimd", defs=["-DSKINNY_C_VERIF_CPUID", "-DSKINNY_C_VERIF_VEC128_MATH=0", "-DSKINNY_C_VERIF_VEC256_MATH=0"], maxbe=0).build(st, jobs=5)], workers=6)
     srcs = ["common.c", "pin.c", "families.c", "alloc.c", "obj.c", "h_cpu.c", "tramp.S"]
     per = {}
     for lib in libs:
@@ -539,8 +541,8 @@ def check_c13(tier, seed):
            "evaluations": merged.evaluations, "distinct_nontrivial": merged.distinct,
            "rule": "(b) environment states = max basic leaf {1,2,4,6,7,0xB,0xD,0x1F} x out-of-range leaf behaviour {zeros, highest-basic-leaf data} x SSE2 x OSXSAVE x AVX x XCR0 {1,3,7,0xE7} x AVX2 x "
                    "leaf-7 sub-leaf-1 contents {0, ones} x all other feature bits {0, ones}, consistent CPUs only, answered through the guarded CPUID/XGETBV seam; every state x each of the six init "
-                   "functions executed twice (different caller registers and stack paint) on builds with and without the 256-bit back end compiled in; oracle: selected vtable / function table and "
-                   "parallel_size == widest back end compiled in and usable in that state. (a) the real CPU: six inits x 14 caller-register/stack patterns x 3 repetitions through an assembly trampoline, "
+                   "functions executed twice (different caller registers, stack paint and prior content of the caller's object: 0x00 / 0xFF) on builds with both SIMD back ends, with only the 128-bit one and with none compiled in; oracle: selected vtable / function table and "
+                   "parallel_size == widest back end compiled in and usable in that state. (a) the real CPU: six inits x 14 caller-register/stack/object patterns x 3 repetitions through an assembly trampoline, same three builds, "
                    "oracle = the compiler's CPU detection; transitions = init calls judged",
            "samples": merged.samples, "notes": merged.notes, "calls_per_build": per, "builds": [l.describe() for l in libs]}
     return v.finish("model_checking", cov, ["x86 only (NEON has no run-time probe)", "model states that would select a back end the host cannot execute are skipped and counted"], exhaustive=True)
